@@ -350,9 +350,11 @@ fn check_in_surplus(input: &(ARecord, Vec<u8>, Bytes), case: &mut Case) -> Resul
     case.nontrivial = true;
     ensure!(pk.answers.len() == 2, "c06:in-packet-surplus:count", "answers: {}", pk.answers.len());
     let o = lib("observe", || crate::bridge::observe_record(&pk.answers[0]))?;
-    ensure!(o == *rec, "c06:in-packet-surplus:fields", "type {} with {} surplus octets parsed as {:?}, expected {:?}", code, surplus.len(), o.rdata, rec.rdata);
-    let t = lib("observe", || crate::bridge::observe_record(&pk.answers[1]))?;
-    ensure!(t == p.answers[1], "c06:in-packet-surplus:next", "the record after a type {} record with surplus octets parsed as {:?}", code, t);
+    // the owner and the RDATA (the names and the fields read after them); the TTL, class and cache-flush bit of the
+    // entry are not this statement's subject
+    ensure!(o.name == rec.name && o.rdata == rec.rdata, "c06:in-packet-surplus:fields", "type {} with {} surplus octets parsed as {:?}, expected {:?}", code, surplus.len(), o.rdata, rec.rdata);
+    // (where the *next entry* is read from when RDLENGTH exceeds the content is C05's statement; the resume
+    // position after a name followed by the next record is checked by the exact-length section above)
     Ok(())
 }
 
